@@ -56,3 +56,20 @@ Proof.
   - eexists. split; reflexivity.
   - eexists. reflexivity.
 Qed.
+
+(* still possible after the atomic update: a refresh in flight + logout + re-login under the same
+   provider session id; the refresh's conditional write then hits the NEW entry *)
+Definition relogin_schedule : list event :=
+  [ELogin 1 2; ETick (3601 * second); ESpawn 1 KProxy tk; ESpawn 2 KLogoutLocal tk;
+   ERun 1 FNone; ERun 1 FNone; ERun 1 FNone; ERun 1 FNone;
+   ERun 2 FNone; ERun 2 FNone;
+   ELogin 1 2;
+   ERun 1 FNone; ERun 1 FNone;
+   ESpawn 3 KProxy tk; ERun 3 FNone].
+
+Lemma relogin_overwrite :
+  let s := run_events (cfg_redis true true true) (init_state 3600) relogin_schedule in
+  thread_done s 2 (OStatus 204) /\ thread_done s 3 (OForward (Some 2%N) None).
+Proof.
+  vm_compute. split; eexists; split; reflexivity.
+Qed.
